@@ -26,6 +26,7 @@ import (
 	"os"
 	"path/filepath"
 	"sort"
+	"strconv"
 	"strings"
 	"sync"
 	"time"
@@ -621,7 +622,34 @@ func genMeta9(r *common.Rand) map[string]string {
 	return m
 }
 
+func init() {
+	client.ConnFactories["vsparse"] = func(c *client.Client, network, address string) (net.Conn, error) {
+		spMu.Lock()
+		ln := spLns[address]
+		spMu.Unlock()
+		if ln == nil {
+			return nil, errors.New("no such listener")
+		}
+		return ln.dial()
+	}
+}
+
 func runE2E(r *common.Rand, tier string, o *common.Out, replay string) {
+	if strings.HasPrefix(replay, "sparse|") {
+		p := strings.Split(replay, "|")
+		n, _ := strconv.Atoi(p[1])
+		e2eSparse(o, "replay", protocol.SerializeType(n), p[2])
+		return
+	}
+	if replay == "" {
+		k := 0
+		for _, ser := range []protocol.SerializeType{protocol.JSON, protocol.MsgPack} {
+			for _, m := range []string{"Plain", "Pooled", "ByValue"} {
+				k++
+				e2eSparse(o, fmt.Sprintf("sp%d", k), ser, m)
+			}
+		}
+	}
 	sers := []protocol.SerializeType{protocol.SerializeNone, protocol.JSON, protocol.ProtoBuffer, protocol.MsgPack, protocol.Thrift}
 	cts := []protocol.CompressType{protocol.None, protocol.Gzip}
 	sizes := []int{0, 1, 700, 760, 770, 1000, 1010, 1015, 1020, 1023, 1024, 1025, 1030, 5000, 65536}
